@@ -17,7 +17,7 @@ use std::sync::{Arc, Mutex};
 pub const DEF: PropDef = PropDef {
     id: "C10",
     level: "model_checking",
-    rule: "single-thread: every in-order stream of <=4 items (thorough <=5), each item a (triple from a 3-triple alphabet, gap in {0,1,2} to the previous timestamp) pair, fed to a real single-window RSPEngine built with RSPBuilder for {RSTREAM, ISTREAM, DSTREAM} x (width,slide) in {(3,1),(2,2),(4,2),(3,2)} x 6 query/rule configurations (one pattern, two-pattern join, pattern over a derived predicate; no rules, subclass rule, two-step chain, inverse-property rule; alphabets contain a triple that is also derivable, so base and derived facts coincide and re-arrive after eviction); oracle per firing: window content from a probe CSPARQLWindow with identical parameters, rows = BGP answers over content + naive rule closure of the content, passed through the R2S reference (all / new / vanished w.r.t. the previous firing); the emitted row sequence must be the concatenation of permutations of the expected per-firing multisets. Multi-thread: the same cases for streams of <=3 items (thorough <=4) in OperationMode::MultiThread under the baton scheduler (hook H1): every schedule with <= 2 preemptions (thorough: streams of <=4 items, <= 3 preemptions; stateless DFS) must emit exactly the single-thread sequence, without deadlock. states = engine runs (one per stream prefix-closed history), transitions = stream items fed, traces = complete executions (streams x schedules). Non-trivial = case whose expected output is non-empty and has >= 2 firings; distinct by (configuration, stream).",
+    rule: "single-thread: every in-order stream of <=4 items (thorough <=5), each item a (triple from a 3-triple alphabet, gap in {0,1,2} to the previous timestamp) pair, fed to a real single-window RSPEngine built with RSPBuilder for {RSTREAM, ISTREAM, DSTREAM} x (width,slide) in {(3,1),(2,2),(4,2),(3,2)} x 6 query/rule configurations (one pattern, two-pattern join, pattern over a derived predicate; no rules, subclass rule, two-step chain, inverse-property rule; alphabets contain a triple that is also derivable, so base and derived facts coincide and re-arrive after eviction); oracle per firing: window content from a probe CSPARQLWindow with identical parameters, rows = BGP answers over content + naive rule closure of the content, passed through the R2S reference (all / new / vanished w.r.t. the previous firing); the emitted row sequence must be the concatenation of permutations of the expected per-firing multisets. Multi-thread: the same cases for streams of <=3 items (thorough <=4) in OperationMode::MultiThread under the baton scheduler (hook H1): every schedule with <= 2 preemptions (thorough: streams of <=4 items, <= 3 preemptions; stateless DFS) must emit exactly the single-thread sequence, without deadlock. plus a long-stream family (12 items, ~11 firings, producer far ahead of the worker) under every schedule with <= 1 (thorough 2) preemptions. states = engine runs (one per stream prefix-closed history), transitions = stream items fed, traces = complete executions (streams x schedules). Non-trivial = case whose expected output is non-empty and has >= 2 firings; distinct by (configuration, stream).",
     assumptions: &[
         "the probe window is the real CSPARQLWindow (its own correctness is C09's subject)",
         "stop()'s flush is excluded (it reports all open windows by design; the repository's tests avoid it too): engines are dropped",
@@ -371,9 +371,22 @@ fn check_multi(out: &mut ShardOut, ctx: &Ctx, op: &str, w: (usize, usize), cfg: 
                 continue;
             }
             Ok(Err(e)) => {
-                let sym = if e.contains("deadlock") { "deadlock" } else { "scheduler_error" };
-                if sym == "deadlock" {
-                    out.fail(case_json(op, w, cfg, stream, "multi", Some(&prefix)), sym, e, tags(op, cfg, "multi"));
+                if e.contains("deadlock") {
+                    out.fail(case_json(op, w, cfg, stream, "multi", Some(&prefix)), "deadlock", e, tags(op, cfg, "multi"));
+                } else if e.contains("stuck") {
+                    // A thread that holds the baton never reached its next point: the worker is blocked
+                    // in a real receive although the scheduler saw the matching send (a firing that was
+                    // sent never arrived), or it hangs inside the processor. Only a verdict if it
+                    // reproduces; a one-off stall is a machinery problem.
+                    match guarded(|| run_multi(op, w, cfg, stream, &prefix)) {
+                        Ok(Err(e2)) if e2.contains("stuck") => out.fail(
+                            case_json(op, w, cfg, stream, "multi", Some(&prefix)),
+                            "worker_never_reaches_next_point",
+                            format!("{} (reproduced twice): under schedule prefix {:?} a thread holding the baton blocks forever - a window content that was sent never reached the worker, or the worker hangs", e, prefix),
+                            tags(op, cfg, "multi"),
+                        ),
+                        _ => out.machinery_errors.push(format!("one-off scheduler stall on {:?} prefix {:?}: {}", stream, prefix, e)),
+                    }
                 } else {
                     out.machinery_errors.push(format!("scheduler error on {:?} prefix {:?}: {}", stream, prefix, e));
                 }
@@ -452,6 +465,36 @@ fn run(ctx: &Ctx) -> ShardOut {
                                 let bound = if ctx.thorough() { 3 } else { 2 };
                                 check_multi(&mut out, ctx, op, *w, cfg, &stream, &single, bound);
                             }
+                        }
+                    }
+                }
+            }
+        }
+    }
+    // Long streams (12 items, one firing per item once the window slides): the producer can run far
+    // ahead of the worker, so queue-depth / back-pressure behaviour of the window -> worker channel is
+    // exercised. Single-thread oracle + every schedule with <= 1 preemption (thorough 2).
+    if sched::available() {
+        for (oi, op) in OPS.iter().enumerate() {
+            for w in [(3usize, 1usize), (2, 2)] {
+                for (ci, cfg) in cfgs.iter().enumerate() {
+                    for variant in 0..3usize {
+                        idx += 1;
+                        if !ctx.mine(idx) {
+                            continue;
+                        }
+                        if !ctx.thorough() && (oi + ci + variant) % 2 == 1 {
+                            continue;
+                        }
+                        if ctx.expired() {
+                            out.capped.push("wall-clock cap hit in the long-stream family".into());
+                            break;
+                        }
+                        let n = 12;
+                        let stream: Stream = (0..n).map(|k| ((k * (variant + 1) + k / 3) % 3, 1 + k)).collect();
+                        out.count("long_streams", 1);
+                        if let Some(single) = check_single(&mut out, op, w, cfg, &stream) {
+                            check_multi(&mut out, ctx, op, w, cfg, &stream, &single, if ctx.thorough() { 2 } else { 1 });
                         }
                     }
                 }
